@@ -5,3 +5,5 @@ import MtailVerif.Props.C25
 #print axioms MtailVerif.C25.unload_counts
 #print axioms MtailVerif.C25.line_counts
 #print axioms MtailVerif.C25.runtime_error_counted
+#print axioms MtailVerif.C25.loader_skeletons
+#print axioms MtailVerif.C25.exec_skeletons
